@@ -237,14 +237,15 @@ C15Scn(p) ==
 
 ---------------------------------------------------------------------------
 (* C18: two filters, shared or separate stores, renamed cookies, own timeouts *)
-C18Space == [stores : {"sharedMemory", "sharedRedis", "separate", "redisDbs"}, samePrefix : BOOLEAN, how : {"renamed", "asIs"},
+C18Space == [stores : {"sharedMemory", "sharedRedis", "separate", "redisDbs", "redisThenMemory", "redisAuth"}, samePrefix : BOOLEAN, how : {"renamed", "asIs"},
              absA : {0, 300}, absB : {0, 100}, firstLogin : {"f1", "f2"}, override : {FALSE}]
             \cup [stores : {"sharedMemory", "redisDbs"}, samePrefix : {FALSE}, how : {"renamed"}, absA : {0, 300}, absB : {0, 100},
                   firstLogin : {"f1", "f2"}, override : {TRUE}]
 
 C18Scn(p) ==
-  LET sa == IF p.stores \in {"sharedRedis", "redisDbs"} THEN "redis" ELSE "memory"
-      sb == IF p.stores = "sharedMemory" THEN "memory" ELSE IF p.stores = "redisDbs" THEN "redis#1" ELSE "redis"
+  \* (redisThenMemory: the Redis-backed filter comes first in the file; redisAuth: a Redis server that wants a password, next to the in-memory store)
+  LET sa == IF p.stores \in {"sharedRedis", "redisDbs", "redisThenMemory"} THEN "redis" ELSE "memory"
+      sb == IF p.stores \in {"sharedMemory", "redisThenMemory"} THEN "memory" ELSE IF p.stores = "redisDbs" THEN "redis#1" ELSE IF p.stores = "redisAuth" THEN "redisauth" ELSE "redis"
       ov(f) == [x \in DOMAIN f \cup {"override"} |-> IF x = "override" THEN p.override ELSE f[x]]
       fa == ov([Flt("f1", TRUE, sa) EXCEPT !.prefix = (IF p.samePrefix THEN "same" ELSE "one"), !.abs = p.absA])
       fb == ov([Flt("f2", TRUE, sb) EXCEPT !.prefix = (IF p.samePrefix THEN "same" ELSE "two"), !.abs = p.absB, !.idp = "B", !.atHeader = "x-at-two",
@@ -255,7 +256,7 @@ C18Scn(p) ==
       crossReq == IF p.how = "renamed"
                   THEN [x \in DOMAIN cross \cup {"cookieAs"} |-> IF x = "cookieAs" THEN me ELSE cross[x]]
                   ELSE cross
-      long == [Ans0 EXCEPT !.idLife = 1000, !.expiresIn = 1000]
+      long == [Ans0 EXCEPT !.idLife = 220, !.expiresIn = 220, !.rotate = TRUE]      \* (short enough for refreshes at both filters within the history)
   IN Scn("c18/" \o p.stores \o (IF p.override THEN "/override" ELSE "") \o (IF p.samePrefix THEN "/same/" ELSE "/distinct/") \o p.how \o "/a" \o ToString(p.absA) \o "/b" \o ToString(p.absB) \o "/" \o me,
          <<fa, fb>>,
          <<Browse("b1", me, 1, long), crossReq, App("b1", me, "jar", 1, long),
